@@ -500,13 +500,6 @@ func execKeys(_ *State, line string) Result {
 	return res
 }
 
-func b2i(b bool) int {
-	if b {
-		return 1
-	}
-	return 0
-}
-
 func errClass(s string) string {
 	f := strings.Fields(s)
 	if len(f) > 5 {
